@@ -5,7 +5,6 @@ package drpcconn
 
 import (
 	"context"
-	"errors"
 	"io"
 	"sync"
 
@@ -151,10 +150,12 @@ func (c *Conn) doInvoke(stream *drpcstream.Stream, enc drpc.Encoding, rpc string
 	// once the remote side has ended the stream (for example because the rpc
 	// is unknown to it, which it reports as soon as it has the invoke), sends
 	// fail with io.EOF. what the stream ended with is what the receive reports.
-	if err := stream.RawWrite(drpcwire.KindMessage, data); err != nil && !errors.Is(err, io.EOF) {
+	// only the stream's own, unwrapped io.EOF means that: a transport failure
+	// that happens to wrap io.EOF is a failure like any other.
+	if err := stream.RawWrite(drpcwire.KindMessage, data); err != nil && err != io.EOF { //nolint:errorlint
 		return err
 	}
-	if err := stream.CloseSend(); err != nil && !errors.Is(err, io.EOF) {
+	if err := stream.CloseSend(); err != nil && err != io.EOF { //nolint:errorlint
 		return err
 	}
 	if err := stream.MsgRecv(out, enc); err != nil {
